@@ -44,7 +44,7 @@ ASSUMPTIONS = [
   'the wrapped module itself (Linen apply / nnx.merge) is the reference: if it is wrong, wrapper and reference are wrong alike',
   'nothing is asserted about the wrapper Rngs after a call that raised (keys are drawn before the wrapped module runs)',
 ]
-PROBES = ['tonnx_runs', 'tolinen_runs', 'mutable_update_propagated', 'eval_call_no_update', 'roundtrip_split_merge', 'fault_in_wrapped', 'nested_in_nnx_parent', 'nested_in_linen_parent', 'partitioned_param_metadata', 'tolinen_sharding_metadata', 'tolinen_rng', 'tolinen_rng_stored_stream', 'tolinen_skip_rng', 'full_state_roundtrip', 'call_time_rngs', 'convert_roundtrip', 'tolinen_falsy_metadata', 'user_metadata_set', 'custom_registered_type', 'name_reregistered', 'failed_lazy_init_of_parent', 'call_interleaved_with_bridge_apply', 'tolinen_subclass_typed', 'tolinen_exact_collections', 'tolinen_subclass_collection_updated', 'tolinen_variable_edited', 'tolinen_subclass_variable_edited']
+PROBES = ['namedtuple_valued_variable', 'tonnx_runs', 'tolinen_runs', 'mutable_update_propagated', 'eval_call_no_update', 'roundtrip_split_merge', 'fault_in_wrapped', 'nested_in_nnx_parent', 'nested_in_linen_parent', 'partitioned_param_metadata', 'tolinen_sharding_metadata', 'tolinen_rng', 'tolinen_rng_stored_stream', 'tolinen_skip_rng', 'full_state_roundtrip', 'call_time_rngs', 'convert_roundtrip', 'tolinen_falsy_metadata', 'user_metadata_set', 'custom_registered_type', 'name_reregistered', 'failed_lazy_init_of_parent', 'call_interleaved_with_bridge_apply', 'tolinen_subclass_typed', 'tolinen_exact_collections', 'tolinen_subclass_collection_updated', 'tolinen_variable_edited', 'tolinen_subclass_variable_edited']
 
 
 def setup_worker(w, tier):
@@ -155,6 +155,8 @@ def generate(rs, tier):
         ins['col'] = 'intermediates'
         ins.pop('how', None)
     for ins in sp['body']:
+      if ins['i'] == 'var' and g.random() < 0.3:
+        ins['kind'] = 'pair'  # a NamedTuple-valued Linen variable: one NNX Variable per field on the wrapper
       if ins['i'] == 'param' and ins['kind'] == 'bias' and g.random() < 0.3:
         ins['part'] = ['dp']
       if ins['i'] == 'rng':
@@ -225,6 +227,9 @@ def signature(plan, v):
 COL_OF = {'Param': 'params', 'BatchStat': 'batch_stats', 'Cache': 'cache', 'Intermediate': 'intermediates'}
 
 
+PROBE_HOOK = [lambda name: None]
+
+
 def extract(w):
   """Linen-style variables {col: nested dict of raw arrays} from the wrapper's attributes, plus a {col/path: Variable} map."""
   out = {}
@@ -247,7 +252,9 @@ def extract(w):
       d = out.setdefault(col, {})
       for k in path[:-1]:
         d = d.setdefault(k, {})
-      d[path[-1]] = type(x)(np.asarray(e.value) for e in x)
+      d[path[-1]] = type(x)(*(np.asarray(e.value) for e in x)) if hasattr(x, '_fields') else type(x)(np.asarray(e.value) for e in x)
+      if hasattr(x, '_fields'):
+        PROBE_HOOK[0]('namedtuple_valued_variable')
       for i, e in enumerate(x):
         where[(col,) + tuple(path) + (i,)] = e
 
@@ -804,6 +811,7 @@ def execute(plan):
   oi, op = -1, {}
   w = None
   try:
+    PROBE_HOOK[0] = res.probe
     if k['kind'] == 'tonnx':
       res.probe('tonnx_runs')
       w = ToNNXWorld(plan, res, log)
